@@ -36,7 +36,7 @@ class RxHandlerAdapter(RequestHandler):
         await self.delegate.on_setup(data_encoding, metadata_encoding, payload)
 
     async def on_metadata_push(self, metadata: Payload):
-        await self.on_metadata_push(metadata)
+        await self.delegate.on_metadata_push(metadata)
 
     async def request_channel(self, payload: Payload) -> Tuple[Optional[Publisher], Optional[Subscriber]]:
         rx_channel = await self.delegate.request_channel(payload)
